@@ -20,14 +20,14 @@ var (
 	mkC03 = func() []*sim.Mon { return []*sim.Mon{sim.MonC03()} }
 	mkC04 = func() []*sim.Mon { return []*sim.Mon{sim.MonC04()} }
 	mkC10 = func() []*sim.Mon { return []*sim.Mon{sim.MonC10()} }
-	shC01 = Shape{EquivFocus: 35, LockPressure: 20, MaybeChanging: 12}
-	shC02 = Shape{ShareBound: 25, EquivFocus: 20}
-	shC03 = Shape{ShareBound: 15}
-	shC04 = Shape{MaxN: 10}
+	shC01 = Shape{EquivFocus: 35, LockPressure: 20, MaybeChanging: 14, ChangingFaults: 60}
+	shC02 = Shape{ShareBound: 25, EquivFocus: 20, MaybeChanging: 10, ChangingFaults: 70}
+	shC03 = Shape{ShareBound: 15, MaybeChanging: 8, ChangingFaults: 70}
+	shC04 = Shape{MaxN: 10, MaybeChanging: 12, ChangingFaults: 60}
 	shC10 = Shape{}
 	mkC05 = func() []*sim.Mon { return []*sim.Mon{sim.MonC05()} }
 	mkC07 = func() []*sim.Mon { return []*sim.Mon{sim.MonC07()} }
-	shC05 = Shape{MaxHeights: 5, MaybeChanging: 40, StepsFactor: 150}
+	shC05 = Shape{MaxHeights: 5, MaybeChanging: 40, StepsFactor: 150, ChangingFaults: 40}
 	shC07 = Shape{}
 	mkC11 = func() []*sim.Mon { return nil }
 	mkC12 = func() []*sim.Mon { return []*sim.Mon{sim.MonC12()} }
@@ -52,7 +52,13 @@ func init() {
 	})
 	regSafety("C10", mkC10, shC10)
 	replayers["C10"] = append(replayers["C10"], func(vals []int, keepLog bool) *sim.World {
-		return RunViewStorm(&ReplaySrc{Vals: vals}, mkC10(), keepLog)
+		if len(vals) == 0 {
+			return RunViewStorm(&ReplaySrc{Vals: vals}, mkC10(), keepLog)
+		}
+		if vals[0] < 2 { // the first draw selects the generator (TestC10)
+			return RunRestartedSolo(&ReplaySrc{Vals: vals[1:]}, mkC10(), keepLog)
+		}
+		return RunViewStorm(&ReplaySrc{Vals: vals[1:]}, mkC10(), keepLog)
 	})
 	regSafety("C05", mkC05, shC05)
 	regSafety("C07", mkC07, shC07)
@@ -168,9 +174,13 @@ func TestC10(t *testing.T) {
 	// view storms: one node driven through dozens of views, the clock jumping to every deadline
 	rapid.Check(t, func(t *rapid.T) {
 		src := &RapidSrc{T: t}
-		w := RunViewStorm(src, mkC10(), false)
+		gen := RunViewStorm
+		if src.Intn("c10gen", 5) < 2 {
+			gen = RunRestartedSolo // a validator restarted with empty state whose peers relay its own earlier messages
+		}
+		w := gen(src, mkC10(), false)
 		fatal := e.Report(w, src.Rec, func() string {
-			return RunViewStorm(&ReplaySrc{Vals: src.Rec}, mkC10(), true).Render()
+			return gen(&ReplaySrc{Vals: src.Rec[1:]}, mkC10(), true).Render()
 		})
 		e.Case(FPInts(src.Rec), w.Stats["c10_view_changed"] > 0, w.Stats, func() any { return sampleOf(w, src.Rec) })
 		if fatal != "" {
